@@ -150,7 +150,9 @@ func RunPrimary(prop string, src Source, o *PrimaryOpts) (*Case, error) {
 		if hk != nil && hk.AfterCommit != nil {
 			hk.AfterCommit()
 		}
-		if err := c.W.TM.ApplyEndBlock(br.Height, br.ValUpdates); err != nil {
+		tmErr := c.W.TM.ApplyEndBlock(br.Height, br.ValUpdates)
+		c.W.SyncAfterCommit(c.Sim)
+		if err := tmErr; err != nil {
 			if err == errEmptySet {
 				c.EndedBy = "empty_validator_set"
 			} else {
